@@ -169,7 +169,7 @@ def _d1(chk, fb, M):
                 chk.unknown("D1", f.key, "call-site", f.loc(), "arguments of permuteCopy in solve are not size expressions")
                 continue
         seen = set()
-        for c, ctext, itext, dimk, verdict, detail, wit in e2.analyse(fb, f, invariants=iv, extra_rels=ex):
+        for c, ctext, itext, dimk, verdict, detail, wit in e2.analyse(fb, f, invariants=iv, extra_rels=ex, free_fields=True, public=True):
             total += 1
             construct = "%s(%s):%s" % (ctext, itext, dimk)
             if (construct, verdict) in seen:
